@@ -43,7 +43,7 @@ type c09Job struct {
 	ID         string `json:"id"`
 	Skel       string `json:"skel"`                  // skeleton family (for the record)
 	Src        string `json:"src,omitempty"`         // grol program text
-	Gen        string `json:"gen,omitempty"`         // big sources are generated in the child: "paren", "bracket", "neg", "block", "call"
+	Gen        string `json:"gen,omitempty"`         // big sources are generated in the child: "paren", "bracket", "neg", "block", "call", "elseif", "sum", "dot", "callchain", "index", "lambda", "strcat"
 	GenN       int    `json:"gen_n,omitempty"`       // nesting depth for Gen
 	MaxDepth   int    `json:"max_depth"`             // Options.MaxDepth (0 = grol's default)
 	DeadlineMs int    `json:"deadline_ms"`           // Options.MaxDuration (0 = none)
@@ -117,6 +117,37 @@ func c09GenSource(kind string, n int) string {
 		sb.WriteString(strings.Repeat("f(", n))
 		sb.WriteString("1")
 		sb.WriteString(strings.Repeat(")", n))
+	case "elseif": // if a {1} else if a {1} else if ...   (a chain, not a nesting in the source)
+		sb.Grow(16*n + 40)
+		sb.WriteString("a=false; if a {1}")
+		sb.WriteString(strings.Repeat(" else if a {1}", n))
+	case "sum": // 1+1+1+...  iterative in the parser, a left-deep tree for the printer and the evaluator
+		sb.Grow(2*n + 2)
+		sb.WriteString("1")
+		sb.WriteString(strings.Repeat("+1", n))
+	case "dot": // m.a.a.a...
+		sb.Grow(2*n + 8)
+		sb.WriteString("m={};m")
+		sb.WriteString(strings.Repeat(".a", n))
+	case "callchain": // f()()()...
+		sb.Grow(2*n + 20)
+		sb.WriteString("f=func(){f};f")
+		sb.WriteString(strings.Repeat("()", n))
+	case "index": // a[a[a[...0...]]]
+		sb.Grow(3*n + 10)
+		sb.WriteString("a=[0];")
+		sb.WriteString(strings.Repeat("a[", n))
+		sb.WriteString("0")
+		sb.WriteString(strings.Repeat("]", n))
+	case "lambda": // x=>x=>x=>...1
+		sb.Grow(3*n + 4)
+		sb.WriteString("f=")
+		sb.WriteString(strings.Repeat("x=>", n))
+		sb.WriteString("1")
+	case "strcat": // "a"+"a"+...
+		sb.Grow(4*n + 4)
+		sb.WriteString("\"a\"")
+		sb.WriteString(strings.Repeat("+\"a\"", n))
 	default:
 		return "error(\"unknown gen\")"
 	}
@@ -1113,7 +1144,7 @@ func c09Concretize(c *Ctx, classes map[string]*c09Class, order []string) []c09Pl
 				j.Gen, j.GenN, j.MemLimit, j.MaxDepth = "paren", 1000000, 2<<30, 0
 				j.HardCap = 3 << 30
 			case "nestmid":
-				kinds := []string{"paren", "bracket", "neg", "block", "call"}
+				kinds := []string{"paren", "bracket", "neg", "block", "call", "elseif", "sum", "dot", "callchain", "index", "lambda", "strcat"}
 				j.Gen = kinds[rng.Intn(len(kinds))]
 				n := 5 * md
 				if md == 0 || n > 20000 {
@@ -1249,6 +1280,14 @@ func c09Pinned(c *Ctx) []c09Plan {
 		c09Plan{WantRefuse: true, Job: c09Job{Skel: "range", Src: "a=0:(1<<40); len(a)", MaxDepth: 100, DeadlineMs: 100, MemLimit: M64, Via: "string"}},
 		c09Plan{Job: c09Job{Skel: "aconcat", Src: "a=[1]; for true {vtick(); a=a+a}", MaxDepth: 100, DeadlineMs: 1000, MemLimit: M64, Via: "one"}},
 	)
+	// chains and nestings far beyond what the Go stack takes when the parser, printer or evaluator recurses on them unguarded
+	for _, g := range []string{"elseif", "sum", "dot", "callchain", "index", "lambda", "strcat"} {
+		n := 1000000
+		if g == "sum" || g == "dot" || g == "strcat" {
+			n = 4000000 // the printer needs ~300 B of stack per level of a left-deep tree: beyond 1 GB at this size
+		}
+		ps = append(ps, c09Plan{Job: c09Job{Skel: "nest", Gen: g, GenN: n, MaxDepth: 1000, DeadlineMs: 1000, MemLimit: 1 << 30, Via: []string{"string", "one"}[len(ps)%2], HardCap: 3 << 30}})
+	}
 	// every size-overflow variant of array repetition (the product wraps around 2^64 to a negative, zero, small or large value)
 	for _, src := range c09Variants["arepeatwrap"] {
 		ps = append(ps, c09Plan{WantRefuse: true, Job: c09Job{Skel: "arepeatwrap", Src: src, MaxDepth: 100, DeadlineMs: 1000, MemLimit: M64, Via: "string", HardCap: 512 << 20}})
